@@ -148,6 +148,9 @@ func checkC04(w *World, r *Report) {
 	r.Rule("R04.20", "end of input is signalled only when the input is exhausted: the lexer never returns a decoded rune equal to the end marker (a NUL character is an invalid character, not the end of the expression)", 1)
 	r.guard("R04.20", func() { c04NoFalseEOF(w, r) })
 
+	r.Rule("R04.21", "whether a string is accepted depends on the string and the prefix map alone: the compilers keep no package-level state written while compiling (no memo of compiled expressions, which would skip the prefix lookup for a text seen before) — same analysis as R06.3", 3)
+	r.guard("R04.21", func() { c06GlobalsRule(w, r, "R04.21") })
+
 	r.Rule("R04.10", "number tokens: the characters LexNum collects are a subset of XPath Number's alphabet {0-9 .}", 1)
 	r.guard("R04.10", func() {
 		f := w.Method("xpath", "CommonLex", "LexNum")
